@@ -11,7 +11,7 @@ open Scc
 /-! ## sizes -/
 
 mutual
-  /-- node count of a Fun term (a clause counts 1 + its binders) -/
+  /-- node count of a Fun term (a clause counts 1 + its binder names + its typed binders) -/
   def funSize : Fun.Term → Nat
     | .var _ _ _ => 1
     | .lit _ => 1
@@ -34,7 +34,8 @@ mutual
     | .cons t r => funSize t + funSizeArgs r
   def funSizeClauses : Fun.Clauses → Nat
     | .nil => 0
-    | .cons _ _ _ ctx body rest => 1 + ctx.length + funSize body + funSizeClauses rest
+    | .cons _ _ names ctx body rest =>
+      1 + names.length + ctx.length + funSize body + funSizeClauses rest
 end
 
 mutual
